@@ -23,6 +23,13 @@ NESTED_SRCS = [
     'x = [a, [1]]\ny = [1, [b]]', '(a + 1) * (2 + b)', 'def f():\n    [a, [1]]\n    def g():\n        [1, [b]]\n    return [g, [2]]\n',
     'class C:\n    x = [a, [1]]\n    def m(self):\n        return [1, [self]]\n', 'lambda: [a, [lambda: [1, [b]]]]',
     '[[x for x in [a, [1]]], [1, [y for y in b]]]',
+    # comprehensions whose first iterable (it belongs to the enclosing scope) is not a bare name
+    'def f(self):\n    return [r for r in self.rows()]\n',
+    'def g(d):\n    return {k: v for k, v in d.items() if k}, (x for x in a.b[c])\n',
+    'z = [y for y in [q for q in w.q]]\nt = [x for x in (lambda: m)()]',
+    'class C:\n    z = [i for i in range(n) for j in k.l]\n    def m(self):\n        return {s for s in self.s[0].t}\n',
+    'lambda o: [(u := x) for x in o.attr[i] if (w := x)]',
+    'def h():\n    return sum(e.v for e in it.chain(p(), [1, q.r]))\n',
 ]
 
 ON = ['enter', 'leave', 'both']
@@ -51,6 +58,13 @@ def patterns(ser):
         ('MTYPES(List,Tuple;elts=[Name,*])', lambda: M.MTYPES((ast.List, ast.Tuple), elts=[M.M(**{TN(0): ast.Name}), M.MQSTAR]), None),
         ('Mstmt(body=[t0,*])', lambda: M.Mstmt(body=[M.M(**{TN(0): ast.Expr}), M.MQSTAR]), None),
         ('MFunctionDef', lambda: M.M(**{TN(0): M.MFunctionDef}), ['m', ['type', n[ast.FunctionDef]], 0, []]),
+        # patterns search() can pre-filter down to one or two node types
+        ('Name', lambda: ast.Name, ['type', n[ast.Name]]),
+        ('M(t0=MName)', lambda: M.M(**{TN(0): M.MName}), ['m', ['type', n[ast.Name]], 0, []]),
+        ('MAttribute(value=t0:Name)', lambda: M.MAttribute(value=M.M(**{TN(0): ast.Name})),
+         ['node', n[ast.Attribute], [['m', ['type', n[ast.Name]], 0, []], ['wild'], ['wild']]]),
+        ('MOR(t0=Name,t1=Constant)', lambda: M.MOR(**{TN(0): ast.Name, TN(1): ast.Constant}),
+         ['mor', [[0, ['type', n[ast.Name]]], [1, ['type', n[ast.Constant]]]]]),
         ('MReturn(value=t0)', lambda: M.MReturn(value=M.M(**{TN(0): ast.List})),
          ['node', n[ast.Return], [['m', ['type', n[ast.List]], 0, []]]]),
     ]
